@@ -133,7 +133,7 @@ example : classesOf Cfg.repaired (w_udp.take 40) = ["ethernet", "vlan", "ipv4", 
 /-- the hypothesis of `refines_c14` is satisfiable and the conclusion is not about an empty chain -/
 example : (parseEthernet Cfg.head (budget w_udp) w_udp).toOption.map (·.classes) = some ["ethernet", "vlan", "ipv4", "udp", "bytes"] := by decide
 /-- `nesting_defect` at d = 3: 26 bytes, three tags -/
-example : parseEthernet Cfg.repaired 3 (nestFrame 3) = .error .recursion ∧ classesOf Cfg.repaired (nestFrame 3) = ["ethernet", "vlan", "vlan", "vlan", "!vlan"] := by
-  decide
+example : parseEthernet Cfg.repaired 3 (nestFrame 3) = .error .recursion := (nesting_defect Cfg.repaired 3).1
+example : classesOf Cfg.repaired (nestFrame 3) = ["ethernet", "vlan", "vlan", "vlan", "!vlan"] := by decide
 
 end Pox.C15
